@@ -86,7 +86,7 @@ func (e *enc) script(o *Obligation, withValues []string) string {
 			if !hit {
 				// axioms over node functions only (no spec function): relevant when one of their functions occurs
 				for _, m := range nmNameRe.FindAllString(ax.text, -1) {
-					if strings.Contains(bodyText, m+" ") || strings.Contains(tail, m+" ") {
+					if strings.Contains(bodyText, "("+m+" ") || strings.Contains(tail, "("+m+" ") {
 						hit = true
 					}
 				}
